@@ -48,5 +48,41 @@ PROPS["C01"] = {
     "assumptions": ["inputs inside the documented domain of DESIGN.md 4.3 (UTF-8, CR only before LF, commands from the vocabulary, generated paths distinct from sources)"],
 }
 
+PROPS["C12"] = {
+    "jobs": [{"cmd": "c12", "shards": 32, "shards_thorough": 48}],
+    "cli": False,
+    "trusted_base": ["direct oracle: byte scan of every generated file of the real run", "M5 correspondence (as C01)"],
+    "modelled": WHOLE_FILE_MODELLED,
+    "level_text": "Lean theorems: str::lines pieces are terminator-free when every CR is followed by LF (rustLines_clean); formatted directive output, substituted tag content and temp bodies consist of such pieces joined by the source's line ending only (LEonly); the ending is sniffed from the first line only. Every generated file of every generated project is byte-scanned on the real implementation on each run, and the whole run is compared with the model.",
+    "design_ref": "5 C12",
+    "level_note": "The composition theorem over the whole machine (output_conf: the concatenation of all chunks is LEonly) is not yet proved; the three producers and the sniffing rule are, and the byte scan + M5 cover the composition on the implementation. Domain: CR occurs only immediately before LF.",
+    "technique": "Lean 4 proof (line-ending conformance of each producer) + byte-scan oracle + differential correspondence",
+    "assumptions": ["CR occurs only immediately before LF in sources, included files and command output"],
+}
+
+PROPS["C13"] = {
+    "jobs": [{"cmd": "c13", "shards": 32, "shards_thorough": 48}],
+    "cli": False,
+    "trusted_base": ["direct oracle: pairwise comparison of the real outputs with the option on and off", "M5 correspondence (as C01)"],
+    "modelled": WHOLE_FILE_MODELLED,
+    "level_text": "Lean theorem (for every directive semantics, every source, every world): the runs with the option on and off fail together, end in the same state (tags, temp files, executed commands) and their outputs are equal or differ by exactly one line ending at the very end; lifted to the txtpp pass in all modes and both passes. Checked on the implementation by building every generated project twice and comparing directly.",
+    "design_ref": "5 C13",
+    "level_note": "Per file with the same inputs: when a file includes the output of another .txtpp source, that dependency's own final line ending changes with the option and is then seen mid-file by the includer; the pair oracle therefore uses mutually independent sources (multi-file projects are still compared with the model).",
+    "technique": "Lean 4 proof (the option is only read by finish) + paired-run oracle + differential correspondence",
+    "assumptions": ["same file contents and command results under both settings"],
+}
+
+PROPS["C16"] = {
+    "jobs": [{"cmd": "c16", "shards": 32, "shards_thorough": 48}],
+    "cli": False,
+    "trusted_base": ["direct oracle: output bytes compared with the input text (identity / write-escape round trip)", "M5 correspondence (as C01)"],
+    "modelled": WHOLE_FILE_MODELLED,
+    "level_text": "Lean theorems: a source in which no line parses as a directive is reproduced as its lines joined by the source's line ending with the final one set by the option (all line lists, both passes); directive output enters the output as one chunk that is never passed through detection or tag substitution again (by the specification's eval). The write-escape round trip is checked on the implementation against the input text directly on generated texts rich in look-alikes, real directive lines and live tag names.",
+    "design_ref": "5 C16",
+    "level_note": "write_escape_roundtrip is not yet a Lean theorem (needs rustLines (joinWith \"\\n\" L) = L); it is an implementation oracle here.",
+    "technique": "Lean 4 proof (pass-through identity by induction over the machine) + round-trip oracle + differential correspondence",
+    "assumptions": ["identity: no line of the source parses as a directive; escape: first line without leading blank, no trailing blanks, no CR/LF inside lines"],
+}
+
 # properties not (yet) claimed, with the reason shown in MANIFEST.not_applicable
 PENDING = {}
